@@ -458,6 +458,28 @@ func rxLimitFamily(r *rng, big bool) string {
 			s = "(?:" + s + ")" + pick(r, []string{"", "?", "*", "|b"})
 		}
 		return s
+	case k < 9 && big:
+		// a long expression (more than 1000 structs: the height and size caches are in use) of random pieces,
+		// inside groups up to the depth limit and after counted repetitions that start the size accounting
+		var b strings.Builder
+		if r.chance(60) {
+			b.WriteString(strings.Repeat(pick(r, []string{"a{1000}", "(?:ab){500}", "[ab]{999}"}), r.rangeInt(1, 4)))
+		}
+		d := pick(r, []int{0, 10, 500, 900, 940, 960, 980, 990})
+		open := pick(r, []string{"(", "(?:", "(?i:", "(?:z|", "(?:zz|z"})
+		b.WriteString(strings.Repeat(open, d))
+		for n := r.rangeInt(150, 500); n > 0; n-- {
+			switch r.intn(6) {
+			case 0:
+				b.WriteString(rxFactorFamily(r))
+			case 1:
+				b.WriteString("|")
+			default:
+				b.WriteString(rxConcat(r, 1))
+			}
+		}
+		b.WriteString(strings.Repeat(pick(r, []string{")", ")", ")?", "){2}", ")*"}), d))
+		return b.String()
 	default:
 		// many runes in classes
 		unit := pick(r, []string{`\pL`, `\PL`, `[\pL\pN]`, `(?i)\pL`, `\p{Han}`, `[^\pL]`, `\p{Lo}`})
@@ -544,8 +566,9 @@ func rxRandom(r *rng, big bool) string {
 	return s
 }
 
-// fixed cases first: every Unicode class name in four settings, then the random ones.  args: "big" lets the
-// limit family use its expensive shapes (depth 1000, thousands of counted repetitions).
+// fixed cases first: every Unicode class name in four settings, with "big" both sides of the rune limit (found by
+// bisection on syntax.Parse), then the random ones.  args: "big" lets the limit family use its expensive shapes
+// (depth 1000, thousands of counted repetitions, long expressions).
 func genC14Rx(out *caseWriter, seed uint64, n int, args []string) error {
 	big := len(args) > 0 && args[0] == "big"
 	i := 0
@@ -561,6 +584,22 @@ func genC14Rx(out *caseWriter, seed uint64, n int, args []string) error {
 		emit(`\P{` + name + `}`)
 		emit(`(?i)\p{` + name + `}`)
 		emit(`(?i)[^\p{` + name + `}]`)
+	}
+	if big && i+2 <= n {
+		// the rune limit (maxRunes): the largest number of \pL in a row that still parses, and one more
+		ok := func(k int) bool { _, err := syntax.Parse(strings.Repeat(`\pL`, k), syntax.Perl); return err == nil }
+		lo, hi := 1, 60000
+		if ok(lo) && !ok(hi) {
+			for hi-lo > 1 {
+				if mid := (lo + hi) / 2; ok(mid) {
+					lo = mid
+				} else {
+					hi = mid
+				}
+			}
+			emit(strings.Repeat(`\pL`, lo))
+			emit(strings.Repeat(`\pL`, hi))
+		}
 	}
 	for ; i < n; i++ {
 		r := newRng(seed, "C14rx", i)
